@@ -288,6 +288,13 @@ def hand():
                                             catch(NIL, [step("c2")])])]),
         step("s2", acts=[act("a2")]),
     ])))
+    # a catching act inside the catch steps of a step that has already caught, and in a branch that is
+    # still open when another branch's error is caught by the enclosing step: the catch marks are per task
+    out.append(line("catch_in_catch", workflow("m", [
+        step("s1", acts=[act("a1")],
+             catches=[catch("e1", [step("c1", acts=[act("ca1", catches=[catch("e2", [step("k1")])])])])]),
+        step("s2"),
+    ])))
     out.append(line("catch_all_empty", workflow("m", [
         step("s1", acts=[act("a1", catches=[catch(NIL, [])])]),
         step("s2", acts=[act("a2")]),
@@ -808,7 +815,7 @@ def family_core(budget, opts, limit=None, seed=0):
     return [line(f"g{i}", w) for i, w in enumerate(ws)]
 
 
-SEQ_NAMES = {"two_acts", "env_write", "catch_act", "catch_step_two", "catch_two_irq", "catch_act_two_irq",
+SEQ_NAMES = {"two_acts", "env_write", "catch_in_catch", "catch_act", "catch_step_two", "catch_two_irq", "catch_act_two_irq",
              "catch_all_empty", "cancel_chain", "no_uses", "bad_pack_caught", "else_empty"}
 
 def enrich(obj, path="n"):
